@@ -8,7 +8,7 @@
 //!
 //! Explored: every sequence of at most `depth` operations of the alphabet below on two slots,
 //! from every root (texts of B-2..=B+2 bytes; buffers of capacity B, B+1, B+3 holding nothing,
-//! 10 bytes, B-1 bytes or capacity-many bytes), each executed on the real crate next to a `String`
+//! 10 bytes, B-1 bytes or capacity-many bytes; borrowed static texts of B-1, B, B+1 bytes), each executed on the real crate next to a `String`
 //! model. Oracle after every step: returned value / panic as `String`; every slot reads back
 //! the model's text (length and bytes); capacity >= len (and >= len + n after reserve(n), exact
 //! after a shrink of an over-allocated heap buffer); at the end every handle is dropped and the
@@ -56,6 +56,8 @@ pub enum Root {
     Text(i8),
     /// `with_capacity(B + d)`, then `push_str` of a text chosen by `Fill`
     Cap(i8, Fill),
+    /// `from_static_str(text of B + d bytes)` (B + 1 is the longest static text a 32-bit handle takes)
+    Static(i8),
 }
 
 #[derive(Clone, Copy, Debug, PartialEq)]
@@ -88,7 +90,14 @@ pub fn roots() -> Vec<Root> {
             v.push(Root::Cap(d, f));
         }
     }
+    v.extend((-1..=1).map(Root::Static));
     v
+}
+
+/// the three borrowed texts, created once per process (they are never released)
+fn static_text(d: i8) -> &'static str {
+    static TEXTS: std::sync::OnceLock<Vec<&'static str>> = std::sync::OnceLock::new();
+    TEXTS.get_or_init(|| (-1..=1isize).map(|d| &*Box::leak(big_text((B as isize + d) as usize).into_boxed_str())).collect())[(d + 1) as usize]
 }
 
 fn slot_ops(i: u8) -> Vec<BOp> {
@@ -150,6 +159,10 @@ fn build(root: Root) -> St {
         Root::Text(d) => {
             let t = big_text((B as isize + d as isize) as usize);
             (LeanString::from(t.as_str()), t)
+        }
+        Root::Static(d) => {
+            let t = static_text(d);
+            (LeanString::from_static_str(t), t.to_string())
         }
         Root::Cap(d, f) => {
             let c = (B as isize + d as isize) as usize;
@@ -254,7 +267,7 @@ fn apply(st: &mut St, op: BOp, out: &mut Vec<(&'static str, String)>) {
     }
 }
 
-fn check_state(st: &St, after: &str, out: &mut Vec<(&'static str, String)>) {
+fn check_state(st: &St, borrowed_ok: bool, after: &str, out: &mut Vec<(&'static str, String)>) {
     for i in 0..2 {
         match (&st.s[i], &st.m[i]) {
             (Some(s), Some(m)) => {
@@ -267,7 +280,7 @@ fn check_state(st: &St, after: &str, out: &mut Vec<(&'static str, String)>) {
                 if s.capacity() < s.len() {
                     out.push(("capacity", format!("after {after}: slot {i} has capacity {} < len {}", s.capacity(), s.len())));
                 }
-                if s.len() > 2 * std::mem::size_of::<usize>() && !s.is_heap_allocated() {
+                if s.len() > 2 * std::mem::size_of::<usize>() && !s.is_heap_allocated() && !borrowed_ok {
                     out.push(("storage", format!("after {after}: slot {i} holds {} bytes but is not heap allocated", s.len())));
                 }
             }
@@ -299,13 +312,14 @@ pub fn run_case(root: Root, ops: &[BOp]) -> Vec<(&'static str, String)> {
             return out;
         }
     };
-    check_state(&st, "the root", &mut out);
+    let borrowed_ok = matches!(root, Root::Static(_));
+    check_state(&st, borrowed_ok, "the root", &mut out);
     for (n, &op) in ops.iter().enumerate() {
         if !out.is_empty() {
             break;
         }
         apply(&mut st, op, &mut out);
-        check_state(&st, &format!("step {} ({op:?})", n + 1), &mut out);
+        check_state(&st, borrowed_ok, &format!("step {} ({op:?})", n + 1), &mut out);
     }
     // release everything; a corrupted handle may make this panic
     let closing = quiet(move || drop(st));
@@ -346,14 +360,14 @@ pub fn sweep(prop: &'static str, findings: &Findings, stats: &ProbeStats, depth:
             n += 1;
             stats.cases.fetch_add(1, Ordering::Relaxed);
             stats.executions.fetch_add(ops.len() as u64 + 1, Ordering::Relaxed);
-            stats.class(format!("{}/{}", match root { Root::Text(_) => "text", Root::Cap(..) => "with_capacity" }, ops.last().map(|o| format!("{o:?}")).unwrap_or_else(|| "root".into()).split('(').next().unwrap()));
+            stats.class(format!("{}/{}", match root { Root::Text(_) => "text", Root::Cap(..) => "with_capacity", Root::Static(_) => "static" }, ops.last().map(|o| format!("{o:?}")).unwrap_or_else(|| "root".into()).split('(').next().unwrap()));
             for (oracle, detail) in viols {
                 if !owns(prop, oracle) {
                     continue;
                 }
                 let v = Viol { prop, oracle, detail: format!("[{case}] {detail}") };
                 let opk = ops.last().map(|o| format!("{o:?}")).unwrap_or_else(|| "root".into());
-                findings.add(&prof, &[], &v, opk.split('(').next().unwrap(), match root { Root::Text(_) => "big-text", Root::Cap(..) => "big-capacity" }, &case);
+                findings.add(&prof, &[], &v, opk.split('(').next().unwrap(), match root { Root::Text(_) => "big-text", Root::Cap(..) => "big-capacity", Root::Static(_) => "big-static" }, &case);
             }
         }
     }
@@ -384,7 +398,7 @@ pub fn replay(prop: &'static str, findings: &Findings, case: &str, verbose: bool
         }
         let v = Viol { prop, oracle, detail: format!("[{case}] {detail}") };
         let opk = ops.last().map(|o| format!("{o:?}")).unwrap_or_else(|| "root".into());
-        findings.add(&prof, &[], &v, opk.split('(').next().unwrap(), match root { Root::Text(_) => "big-text", Root::Cap(..) => "big-capacity" }, case);
+        findings.add(&prof, &[], &v, opk.split('(').next().unwrap(), match root { Root::Text(_) => "big-text", Root::Cap(..) => "big-capacity", Root::Static(_) => "big-static" }, case);
     }
     Ok(())
 }
